@@ -1,3 +1,4 @@
+import RjModel.Lemmas.ListingLemmas
 import RjModel.Lemmas.WalkerLemmas
 import RjModel.Generated.Walker
 /-! # C17 — the directory walk lists every included entry exactly once and always finishes -/
@@ -63,5 +64,37 @@ example :
     s.consumed = [1, 2, 3, 7] ∧ s.jobs.length = 0 ∧ s.results = [] ∧
     s.ws.all (fun w => match w with | .exited => true | _ => false) = true := by
   decide
+
+/-! ### the listing as a function of the file-system model (what the walk computes, schedule-free) -/
+
+/-- **Every entry exactly once, folders before their contents** — on the file-system model: the listing
+of a directory (`listNodes`: every child, each real folder followed by its own listing; a symlink is a
+leaf) holds exactly the nodes strictly below the directory that are reachable through real folders —
+each of them (given fuel for the depth), nothing else, none twice — and nothing listed later is a prefix
+of (or equal to) something listed earlier. -/
+theorem C17_listing_exact_fs (fs : FS) (hw : fs.Wf) (f : Nat) (dir : FPath) :
+    (∀ p n, (p, n) ∈ listNodes fs f dir → fs.get p = some n ∧ dir <+: p ∧ p ≠ dir) ∧
+    (∀ rest n, rest ≠ [] → rest.length ≤ f → fs.get (dir ++ rest) = some n →
+      (∀ k, 0 < k → k < rest.length → fs.get (dir ++ rest.take k) = some .folder) → (dir ++ rest, n) ∈ listNodes fs f dir) ∧
+    (listNodes fs f dir).Pairwise (fun a b => ¬ b.1 <+: a.1) ∧
+    ((listNodes fs f dir).map (·.1)).Nodup := by
+  refine ⟨fun p n h => ?_, fun rest n h1 h2 h3 h4 => listNodes_complete fs f dir rest n h1 h2 h3 h4,
+    listNodes_parentFirst fs hw f dir, ?_⟩
+  · obtain ⟨a, b, c, -⟩ := listNodes_sound fs hw f dir p n h; exact ⟨a, b, c⟩
+  · unfold List.Nodup
+    rw [List.pairwise_map]
+    refine (listNodes_parentFirst fs hw f dir).imp ?_
+    intro a b h e
+    apply h
+    rw [e]; exact List.prefix_refl _
+
+/-- **`GetEntries` is that listing**: without filters and with every entry reportable (no backslash in a
+name, no special file, no time before the epoch) the doer model's `GetEntries` answers exactly the
+entries of `listNodes`, each with its root-relative path and details, and no error. -/
+theorem C17_getentries_is_listing (fs : FS) (abs : List Comp) (root : FPath) (f : Nat) (dir : FPath)
+    (hgood : ∀ e ∈ listNodes fs f dir, Reportable fs abs e) :
+    listDir fs abs (fun _ => true) root f dir =
+      ((listNodes fs f dir).map fun e => (relString root e.1, detOr fs abs e), []) :=
+  listDir_eq_listNodes fs abs root f dir hgood
 
 end Rj.C17
